@@ -125,13 +125,17 @@ def region(
     ths = list(extra_thresholds)
     for c in cs:
         ths += [c, math.degrees(c), math.radians(c)] if any(u != "raw" for _, u in quantities) else [c]
+        if any(u == "cos" for _, u in quantities) and -1.0 <= c <= 1.0:
+            # a cosine compared with c changes sign at the angles acos(c) and acos(-c) (abs(), negated operands)
+            ths += [math.degrees(math.acos(c)), math.degrees(math.acos(-c))]
     pts = cells(ths)
     out: Dict[Tuple[float, ...], bool] = {}
     for combo in itertools.product(pts, repeat=len(quantities)):
         def leaf(n, combo=combo):
             for (p, unit), s in zip(quantities, combo):
                 if p(n):
-                    return math.radians(s) if unit == "rad" else s
+                    # 'rad': the quantity is the angle in radians; 'cos': the quantity is the cosine of the angle (sample in degrees)
+                    return math.radians(s) if unit == "rad" else (math.cos(math.radians(s)) if unit == "cos" else s)
             return None
 
         v = bool(evaluate(expr, leaf, fold))
